@@ -56,9 +56,11 @@ def step (s : St) (l : Line) : St × Verdict :=
           else (s', .ok)
         else
           -- only this callback's id may be forgotten, nothing may be added
-          if after ≠ before ∧ after ≠ before.erase r then
+          -- (an id can be on record more than once - issued again, or 0 - and a handler may retire it more than once:
+          --  that only makes the gate stricter; what may not happen is that any OTHER id changes, or that one appears)
+          if after.filter (· ≠ r) ≠ before.filter (· ≠ r) ∨ after.count r > before.count r then
             (s', .specFail "C05.tasks" s!"callback cmd={c} req={r} turned the outstanding ids {showTasks before} into {showTasks after}")
-          else if final == "1" ∧ before.contains r ∧ after ≠ before.erase r then
+          else if final == "1" ∧ before.contains r ∧ after.count r ≥ before.count r then
             (s', .specFail "C05.completed" s!"final callback cmd={c} req={r} processed but the id is still accepted (outstanding {showTasks after})")
           else if final == "0" ∧ after ≠ before then
             (s', .diff s!"tasks={showTasks before}")
